@@ -56,7 +56,7 @@ const (
 	two64   = "18446744073709551616"
 )
 
-func hx(s string) string  { return hex.EncodeToString([]byte(s)) }
+func hx(s string) string { return hex.EncodeToString([]byte(s)) }
 func unhx(s string) (string, bool) {
 	b, err := hex.DecodeString(s)
 	return string(b), err == nil
@@ -849,39 +849,39 @@ type svTree struct {
 	eco string
 }
 
-func (t svTree) encode() string           { return t.enc() }
-func (t svTree) normal() string           { return t.render(t.eco) }
+func (t svTree) encode() string            { return t.enc() }
+func (t svTree) normal() string            { return t.render(t.eco) }
 func (t svTree) spell(r *rand.Rand) string { return t.alt(r, t.eco) }
-func (t svTree) ok() bool                 { return t.valid(t.eco) }
-func (t svTree) lib() bool                { return t.inLib(t.eco) }
-func (t svTree) cls() []string            { return t.classes(t.eco) }
+func (t svTree) ok() bool                  { return t.valid(t.eco) }
+func (t svTree) lib() bool                 { return t.inLib(t.eco) }
+func (t svTree) cls() []string             { return t.classes(t.eco) }
 
 type gemTree struct{ *gemAst }
 
-func (t gemTree) encode() string           { return t.enc() }
-func (t gemTree) normal() string           { return t.render() }
+func (t gemTree) encode() string            { return t.enc() }
+func (t gemTree) normal() string            { return t.render() }
 func (t gemTree) spell(r *rand.Rand) string { return t.alt(r) }
-func (t gemTree) ok() bool                 { return t.valid() }
-func (t gemTree) lib() bool                { return t.inLib() }
-func (t gemTree) cls() []string            { return t.classes() }
+func (t gemTree) ok() bool                  { return t.valid() }
+func (t gemTree) lib() bool                 { return t.inLib() }
+func (t gemTree) cls() []string             { return t.classes() }
 
 type pepTree struct{ *pepAst }
 
-func (t pepTree) encode() string           { return t.enc() }
-func (t pepTree) normal() string           { return t.render() }
+func (t pepTree) encode() string            { return t.enc() }
+func (t pepTree) normal() string            { return t.render() }
 func (t pepTree) spell(r *rand.Rand) string { return t.alt(r) }
-func (t pepTree) ok() bool                 { return t.valid() }
-func (t pepTree) lib() bool                { return t.inLib() }
-func (t pepTree) cls() []string            { return t.classes() }
+func (t pepTree) ok() bool                  { return t.valid() }
+func (t pepTree) lib() bool                 { return t.inLib() }
+func (t pepTree) cls() []string             { return t.classes() }
 
 type mvnTree struct{ *mavenAst }
 
-func (t mvnTree) encode() string           { return t.enc() }
-func (t mvnTree) normal() string           { return t.render() }
+func (t mvnTree) encode() string            { return t.enc() }
+func (t mvnTree) normal() string            { return t.render() }
 func (t mvnTree) spell(r *rand.Rand) string { return t.alt(r) }
-func (t mvnTree) ok() bool                 { return t.valid() }
-func (t mvnTree) lib() bool                { return t.inLib() }
-func (t mvnTree) cls() []string            { return t.classes() }
+func (t mvnTree) ok() bool                  { return t.valid() }
+func (t mvnTree) lib() bool                 { return t.inLib() }
+func (t mvnTree) cls() []string             { return t.classes() }
 
 var ecos = []string{"npm", "cargo", "go", "nuget", "gem", "pypi", "maven"}
 
